@@ -17,7 +17,8 @@ JudgeIter(e) ==
 
 JudgeApply(e) ==
     IF e.raised # "" THEN V("C15.Raised", "apply:" \o e.raised)
-    ELSE IF e.out = ApplySeq(e.g, e.start) THEN None ELSE V("C15.ApplyBrackets", e.api)
+    ELSE IF e.out = SelectSeq(ApplySeq(e.g, e.start), LAMBDA r : r.k \in SeqToSet(e.given)) THEN None
+    ELSE V("C15.ApplyBrackets", e.api \o (IF Len(e.given) = 3 THEN "" ELSE "/omitted-callbacks"))
 
 JudgeAge(e) ==
     IF e.raised # "" THEN V("C15.Raised", "ageorder:" \o e.raised)
